@@ -14,7 +14,7 @@ DEPTH = {
     "resolver": (6, 8), "spanner": (0, 0),
     # depth counts the free inputs after the preamble
     "deep-aff": (5, 6), "deep-affref": (5, 6), "deep-refbound": (5, 6), "deep-load": (6, 8), "deep-fb": (5, 6),
-    "deep-refresh": (5, 7), "deep-rr": (4, 5),
+    "deep-refresh": (5, 7), "deep-rr": (4, 5), "deep-ref2": (9, 12),
 }
 SIM = {"quick": (120, 25), "thorough": (1500, 40)}
 
